@@ -393,3 +393,34 @@ Definition final_state (designed : path) (load_of : iter -> load) (o : outcome) 
   | NoBaudrate => Some designed
   | _ => None
   end.
+
+(* ====================================================================================================
+   6. Amplifier state in dB, as Edfa.interpol_params computes it (numerically tied to gnpy by the harness)
+   ==================================================================================================== *)
+(* elements.py l.1441-1446:  effective_gain = min(effective_gain, p_max - pin_db)   (dB, dBm; pin_db = -inf for no power) *)
+Definition clamp_db (g pmax : Q) (pin : option Q) : Q :=
+  match pin with Some p => Qmin g (pmax - p) | None => g end.
+(* what happens to one amplifier object over time:
+     ASnap      propagate_and_optimize_mode records its gain before the (baud, offset) loop
+     ARestore   ... and writes it back at the top of an iteration
+     AProp pin  the amplifier propagates a spectrum whose total input power is pin *)
+Inductive aev := ASnap | ARestore | AProp (pin : option Q).
+Record ast := mkAst { a_cur : Q; a_snap : Q }.
+Definition astep (pmax : Q) (s : ast) (e : aev) : ast :=
+  match e with
+  | ASnap => mkAst (a_cur s) (a_cur s)
+  | ARestore => mkAst (a_snap s) (a_snap s)
+  | AProp pin => mkAst (clamp_db (a_cur s) pmax pin) (a_snap s)
+  end.
+(* the effective gain after every propagation of a history that starts from gain g0 *)
+Fixpoint atrace (pmax : Q) (s : ast) (evs : list aev) : list Q :=
+  match evs with
+  | [] => []
+  | e :: t =>
+      let s' := astep pmax s e in
+      match e with AProp _ => a_cur s' :: atrace pmax s' t | _ => atrace pmax s' t end
+  end.
+Definition amp_history (g0 pmax : Q) (evs : list aev) : list Q := atrace pmax (mkAst g0 g0) evs.
+(* the two shapes the code produces *)
+Definition loop_events (pins : list (option Q)) : list aev := ASnap :: flat_map (fun p => [ARestore; AProp p]) pins.
+Definition shared_events (pins : list (option Q)) : list aev := map AProp pins.
